@@ -218,8 +218,9 @@ class mapper(object):
                 p = cst(Bits(p[::endian], bitorder=1).int(), plen * 8)
             elif isinstance(p, exp):
                 if p._is_def == 0:
-                    # p is "bottom":
-                    p = mem(a, p.size, disp=cur)
+                    # p is "bottom" (parts are in reversed order if big endian):
+                    off = cur if endian == 1 else (l - cur - plen)
+                    p = mem(a, p.size, disp=off, endian=endian)
                 elif p.etype==et_ext and p._subrefs.get("mmio_r",None):
                     p = p.stub(self,mode="r")
             P.append(p)
